@@ -108,13 +108,18 @@ def _eval_scan(case):
         line = sc.scan_line("scan", base, tree, root, mp, ex)
         # the same exclusion with external libraries included: an excluded file must still contribute nothing
         filtered_ext = sc.real_scan(proj, root, mp, **sc.kw_for(ex, False, None, ("R", ()))) if case.get("with_externals") else None
+        # regex_exclusions given WITHOUT exclusions=(): the glob exclusions keep their default, the call is either refused
+        # (ImproperlyConfigured: both kinds given) or honours the regexes - it must never silently ignore them
+        bare = None
+        if case["regex"] and case.get("bare_regex_call"):
+            bare = sc.real_scan(proj, root, mp, regex_exclusions=ex[1])
         # which paths match (documented glob meaning, on the path strings the library sees)
         matched = []
         for p in tree:
             path_str = base + "".join("/" + c for c in p.split("/")[1:])
             if any(sc.glob_spec(g, path_str) for g in pats):
                 matched.append(p)
-    return filtered, plain, line, matched, filtered_ext
+    return filtered, plain, line, matched, filtered_ext, bare
 
 
 def _glob_to_regex(g):
@@ -127,7 +132,7 @@ def _glob_to_regex(g):
 def judge_scans(ctx, stream, cases):
     res = pmap(_eval_scan, cases, ctx.jobs, chunk=20)
     ans = run_driver([r[2] for r in res])
-    for case, (filtered, plain, line, matched, filtered_ext), a in zip(cases, res, ans):
+    for case, (filtered, plain, line, matched, filtered_ext, bare), a in zip(cases, res, ans):
         a = parse_answer(a)
         stream.evaluations += 1
         F, P = sc.parse_snapshot(filtered), sc.parse_snapshot(plain)
@@ -176,6 +181,11 @@ def judge_scans(ctx, stream, cases):
                 if back or into:
                     bad = (f"with external libraries included an excluded file/directory contributes again: modules {sorted(back)[:5]}, "
                            f"imports {sorted(into)[:5]}")
+        if not bad and bare is not None:
+            stream.count("bare regex_exclusions call:" + ("refused" if bare.startswith("ERR") else "evaluated"))
+            if bare != "ERR:improperlyConfigured" and bare != filtered:
+                bad = ("regex_exclusions passed without exclusions=() are neither refused nor applied: the scan differs from the scan "
+                       f"with the same regexes and exclusions=() ({bare[:200]})")
         if bad:
             ctx.violations.append({"kind": "property-violation", "what": bad, "files": dict(case["tree"]), "module_path": mp,
                                    "patterns": case["pats"], "regex_form": case["regex"], "filtered": filtered, "unfiltered": plain, "model": m})
@@ -207,7 +217,7 @@ def run(ctx: Ctx):
             dirs = sorted(p for p, v in tree.items() if v is None)
             cases.append({"tree": tree, "root": "proj", "mp": rng.choice(dirs) if rng.random() < 0.3 else "proj",
                           "pats": exclusion_for(rng, tree), "regex": rng.random() < 0.4, "with_externals": rng.random() < 0.5,
-                          "flagged": rng.randrange(4) if rng.random() < 0.3 else None})
+                          "flagged": rng.randrange(4) if rng.random() < 0.3 else None, "bare_regex_call": rng.random() < 0.3})
         judge_scans(ctx, s, cases)
         done += len(cases)
     s.finish()
